@@ -170,7 +170,10 @@ class Ctx:
     # ---------------------------------------------------------------- Go side
     def overlay_json(self, mapping):
         """mapping: {path under /repo: path under harness/overlay}. zzverif helper is always added."""
-        rep = {os.path.join(REPO, "zzverif", "util.go"): os.path.join(OVERLAY, "zzverif", "util.go")}
+        rep = {}
+        for fn in sorted(os.listdir(os.path.join(OVERLAY, "zzverif"))):   # shared helper package
+            if fn.endswith(".go"):
+                rep[os.path.join(REPO, "zzverif", fn)] = os.path.join(OVERLAY, "zzverif", fn)
         for dst, src in mapping.items():
             rep[os.path.join(REPO, dst)] = os.path.join(OVERLAY, src)
         path = os.path.join(self.tmp, f"overlay-{len(os.listdir(self.tmp))}.json")
@@ -207,13 +210,41 @@ class Ctx:
             log(f"[go test {pkg} -run {run}] rc={rc}\n{out[-3000:]}")
         return rc, out, outdir
 
+    def go_test_binary(self, pkg, overlay, name="driver.test", race=False, tags=None):
+        """Compile the test binary of `pkg` (with the overlay) once; returns its path or None."""
+        out = os.path.join(self.tmp, name)
+        e = dict(os.environ)
+        e.update(GO_ENV)
+        cmd = ["go", "test", "-c", "-overlay=" + self.overlay_json(overlay), "-vet=off", "-o", out]
+        if race:
+            cmd.append("-race")
+        if tags:
+            cmd.append("-tags=" + tags)
+        cmd.append(pkg)
+        p = subprocess.run(cmd, cwd=REPO, env=e, stdout=subprocess.PIPE, stderr=subprocess.STDOUT, text=True)
+        if p.returncode != 0:
+            log(f"[go test -c {pkg}] failed\n{p.stdout[-3000:]}")
+            self.build_output = p.stdout
+            return None
+        return out
+
+    def run_env(self, outdir, extra=None):
+        e = dict(os.environ)
+        e.update(GO_ENV)
+        e["VERIF_SEED"] = str(self.seed)
+        e["VERIF_TIER"] = self.tier
+        e["VERIF_OUT"] = outdir
+        if extra:
+            e.update({k: str(v) for k, v in extra.items()})
+        return e
+
     # ---------------------------------------------------------------- correspondence
     def read_stats(self, outdir):
         st = {}
         p = os.path.join(outdir, "stats.txt")
         if os.path.exists(p):
             for line in open(p):
-                k, _, v = line.strip().partition("=")
+                k, _, v = line.strip().rpartition("=")
                 if k:
                     st[k] = st.get(k, 0) + int(v)
         for k, v in st.items():
